@@ -144,9 +144,14 @@ def _has_unsorted_children(case) -> bool:
     return any([c.idx for c in h.children(n)] != sorted(c.idx for c in h.children(n)) for n in h)
 
 
+def reuse_strategy(tier):
+    return st.fixed_dictionaries({"root": st.sampled_from(["module", "dfg", "custom"]), "mut": store.reuse_mutations(30 if tier == "quick" else 50)})
+
+
 REQUIRES = {"children-not-in-index-order": _has_unsorted_children}
 
 SUBS = [
     Sub("programs", check, strategy=prog_strategy, nontrivial=nontrivial, classes=classes, n_quick=300, n_thorough=2000, sample_ok=lambda c: len(json.dumps(c)) < 3000),
     Sub("raw", check, strategy=raw_strategy, nontrivial=nontrivial, classes=classes, n_quick=300, n_thorough=2000),
+    Sub("index-reuse", check, strategy=reuse_strategy, nontrivial=nontrivial, classes=classes, n_quick=250, n_thorough=1500),
 ]
